@@ -16,6 +16,7 @@ use crate::util::*;
 
 type Pwpi = ProofWithPublicInputs<F, C, 2>;
 type Cpwpi = CompressedProofWithPublicInputs<F, C, 2>;
+type SProof = crate::stark_dsl::SProof;
 
 fn outcome<T>(f: impl FnOnce() -> anyhow::Result<T>) -> &'static str {
     match std::panic::catch_unwind(std::panic::AssertUnwindSafe(f)) {
@@ -111,9 +112,74 @@ fn reground(e: &mut Emitter, r: &mut Rng, thorough: bool) {
     }
 }
 
+/// STARK entry point: structural mutants of accepted STARK proofs (Fibonacci: no lookups; a lookup
+/// STARK of degree 3) fed to `verify_stark_proof`; the Lean STARK verifier answers the same request.
+fn stark_malformed(e: &mut Emitter, r: &mut Rng, thorough: bool) {
+    use std::sync::Arc;
+    use crate::stark_dsl::*;
+    use plonky2::field::types::Field;
+    let n_inst = if thorough { 6 } else { 2 };
+    for k in 0..n_inst {
+        let (air, rows, pis) = if k % 2 == 0 {
+            let (rows, pis) = fibonacci_trace(1 << r.range(2, 6), F::from_canonical_u64(r.below(P)), F::from_canonical_u64(r.below(P)));
+            (Arc::new(fibonacci_air()), rows, pis)
+        } else {
+            let (rows, pis) = permutation_trace(1 << r.range(3, 6), F::from_canonical_u64(r.below(1 << 30)));
+            (Arc::new(permutation_air(3)), rows, pis)
+        };
+        let config = gen_stark_config(r, true, 2);
+        e.stage(&format!("proving a STARK instance for malformed-proof tests ({} lookups)", air.lookups.len()));
+        let Ok(Ok(proof)) = std::panic::catch_unwind(std::panic::AssertUnwindSafe(|| prove_air(&air, &config, &rows, &pis, None))) else { e.count("stark: inadmissible config"); continue; };
+        if verdict_air(&air, &config, &proof, None) != "ACCEPT" { e.count("stark: honest proof not accepted on this cheap config (covered by C09)"); continue; }
+        let json = serde_json::to_value(&proof).unwrap();
+        let (mut leaves, mut arrays) = (vec![], vec![]);
+        walk(&json, &mut vec![], &mut leaves, &mut arrays);
+        let mut check = |e: &mut Emitter, cls: String, j: Value| {
+            let Ok(p2) = serde_json::from_value::<SProof>(j) else { e.count("stark mutant-not-deserialisable"); return; };
+            e.stage(&format!("impl: verify_stark_proof on mutant {cls}"));
+            let v = verdict_air(&air, &config, &p2, None);
+            let oc = class3(&v);
+            if oc == "OK" { e.oracle_failures.push(format!("malformed STARK proof ({cls}) verified OK")); }
+            if oc == "PANIC" { e.oracle_failures.push(format!("verify_stark_proof PANICS on a malformed proof: {cls}")); }
+            e.case(&format!("stark {cls}"), proof_request("c18 sverify", &air, &config, &None, &p2), || oc.clone());
+        };
+        let mut by_class: std::collections::BTreeMap<String, Vec<Vec<String>>> = Default::default();
+        for a in arrays { by_class.entry(class_of_arr(&a)).or_default().push(a); }
+        for (cls, als) in &by_class {
+            for surgery in 0..4 {
+                // the first array of a class matters most: `recover_degree_bits` reads round 0, oracle 0
+                let path = if r.coin() { als[0].clone() } else { r.pick(als).clone() };
+                let mut j = json.clone();
+                let Value::Array(xs) = at(&mut j, &path) else { continue };
+                if xs.is_empty() { continue; }
+                match surgery { 0 => { xs.pop(); } 1 => { xs.clear(); } 2 => { let l = xs.last().unwrap().clone(); xs.push(l); } _ => { if xs.len() < 2 { continue; } xs.remove(0); } }
+                check(e, format!("surgery{surgery} {cls}"), j);
+            }
+        }
+        for path in [["proof", "auxiliary_polys_cap"].as_slice(), &["proof", "quotient_polys_cap"], &["proof", "openings", "auxiliary_polys"],
+                     &["proof", "openings", "auxiliary_polys_next"], &["proof", "openings", "ctl_zs_first"], &["proof", "openings", "quotient_polys"]] {
+            let is_cap = path[path.len() - 1].ends_with("_cap");
+            let donor = if is_cap { json["proof"]["trace_cap"].clone() } else if path[path.len() - 1] == "ctl_zs_first" { json["public_inputs"].clone() } else { json["proof"]["openings"]["local_values"].clone() };
+            let pv: Vec<String> = path.iter().map(|s| s.to_string()).collect();
+            let mut j = json.clone();
+            let cell = at(&mut j, &pv);
+            let variants: Vec<(&str, Value)> = if cell.is_null() { vec![("None->Some(empty)", Value::Array(vec![])), ("None->Some(copy)", donor)] } else { vec![("Some->None", Value::Null)] };
+            for (name, val) in variants {
+                let mut j2 = json.clone();
+                *at(&mut j2, &pv) = val;
+                check(e, format!("option {} {name}", path.join(".")), j2);
+            }
+        }
+        let mut j = json.clone();
+        if let Value::Array(xs) = at(&mut j, &["public_inputs".to_string()]) { xs.push(Value::from(0u64)); }
+        check(e, "public input appended".into(), j);
+    }
+}
+
 pub fn emit(e: &mut Emitter, seed: u64, thorough: bool) {
     let mut r = Rng::new(seed ^ 0x18);
     reground(e, &mut r, thorough);
+    stark_malformed(e, &mut r, thorough);
     let n_circuits = if thorough { 6 } else { 2 };
     let mut made = 0;
     let mut tries = 0;
